@@ -1,8 +1,16 @@
-// Group `blocksel`: the orchestration functions of src/blocks.rs.
+// Group `blocksel`: the orchestration functions of src/blocks.rs and the grammar table.
 //   B6t  `try_parser_for_extension`   table lookup after the -E remapping
 //   B6   `parser_for_file_path`       which grammar a file NAME gets (suffix search from the last dot
 //                                     to the first, then the whole name)
-// Properties: C16 (grammar chosen by file name; unknown names skipped), C04 (safety).
+//   B5   `parse_file`                 unknown name => skipped and never read; read/parse errors are
+//                                     errors; the blocks kept are exactly the selected ones, with the
+//                                     two modification flags of B3/B4
+//   B7e  `FileBlocks::is_empty`
+//   B7   `parse_blocks`               which files are examined (walk + globs, diff files, --ignore),
+//                                     with which filter, for ANY iteration order of the diff map
+//   C16.table  statements of `language_parsers()` (src/language_parsers/mod.rs): the registered names
+// Properties: C16 (B6, B5, table), C02 (B5, B7), C12 (B5, B7), C15 (B7), C20 (B7), C04 (safety).
+// Notes: contracts/groups/blocksel.notes.md
 use vstd::prelude::*;
 use std::collections::HashMap;
 use std::ffi::OsString;
@@ -777,6 +785,149 @@ verif_rc_clone(&$a)
 //@edit rule=E13 find=<<HashMap::from(>>
 verif_hashmap_from_array(
 //@end
+
+// ---- C16: B6 instantiated on the names the property lists ---------------------------------------------
+/// if `dots` lists exactly the positions of '.' in `name`, ascending, it is `char_positions(name, '.')`
+proof fn lemma_positions_known(name: Seq<char>, dots: Seq<int>)
+    requires
+        forall|j: int| 0 <= j < dots.len() ==> 0 <= #[trigger] dots[j] < name.len() && name[dots[j]] == '.',
+        forall|j: int, l: int| 0 <= j < l < dots.len() ==> #[trigger] dots[j] < #[trigger] dots[l],
+        forall|i: int| 0 <= i < name.len() && #[trigger] name[i] == '.' ==> dots.contains(i),
+    ensures
+        char_positions(name, '.') =~= dots,
+    decreases name.len(),
+{
+    if name.len() == 0 {
+        if dots.len() > 0 { assert(0 <= dots[0] < name.len()); }
+    } else {
+        let t = name.drop_last();
+        let last = name.len() - 1;
+        if name.last() == '.' {
+            assert(name[last] == '.');
+            assert(dots.contains(last));
+            let j = choose|j: int| 0 <= j < dots.len() && dots[j] == last;
+            if j < dots.len() - 1 { assert(dots[j] < dots[dots.len() - 1]); }
+            let d = dots.drop_last();
+            assert forall|l: int| 0 <= l < d.len() implies 0 <= #[trigger] d[l] < t.len() && t[d[l]] == '.' by {
+                assert(d[l] == dots[l]);
+                assert(dots[l] < dots[dots.len() - 1]);
+            }
+            assert forall|i: int| 0 <= i < t.len() && #[trigger] t[i] == '.' implies d.contains(i) by {
+                assert(name[i] == '.');
+                let l = choose|l: int| 0 <= l < dots.len() && dots[l] == i;
+                assert(d[l] == i);
+            }
+            lemma_positions_known(t, d);
+            assert(dots =~= d.push(last));
+        } else {
+            assert forall|l: int| 0 <= l < dots.len() implies 0 <= #[trigger] dots[l] < t.len() && t[dots[l]] == '.' by {
+                assert(name[dots[l]] == '.');
+            }
+            assert forall|i: int| 0 <= i < t.len() && #[trigger] t[i] == '.' implies dots.contains(i) by {
+                assert(name[i] == '.');
+            }
+            lemma_positions_known(t, dots);
+        }
+    }
+}
+
+/// a name whose LAST dot is at `k` is tried first with the text after that dot — whatever precedes it
+/// (`x.ts`, `x.d.ts`, `.x.ts`, `a.b.c.ts`): "the same tags are found whatever else the base name contains"
+proof fn lemma_last_suffix_tried_first(name: Seq<char>, k: int)
+    requires
+        0 <= k < name.len() && name[k] == '.',
+        forall|i: int| k < i < name.len() ==> #[trigger] name[i] != '.',
+    ensures
+        candidates(name).len() >= 2,
+        candidates(name)[0] == name.subrange(k + 1, name.len() as int),
+{
+    lemma_char_positions(name, '.');
+    let p = char_positions(name, '.');
+    assert(p.contains(k));
+    let j = choose|j: int| 0 <= j < p.len() && p[j] == k;
+    if j < p.len() - 1 {
+        assert(p[j] < p[p.len() - 1]);
+        assert(name[p[p.len() - 1]] == '.');
+    }
+}
+
+/// C16 on the names the property lists, for the table of `language_parsers()` (`c16_table`, proved on
+/// the real text by unit C16.table) and no `-E` mapping.
+proof fn lemma_c16_examples(path: PathBuf, m: Map<OsString, LanguageParser>, extra: Map<OsString, OsString>)
+    requires
+        c16_table(m),
+        extra =~= Map::<OsString, OsString>::empty(),
+    ensures
+        // `x.ts`, `x.d.ts`, `a.b.ts`, ...: any base name whose last dot is followed by `ts`
+        (base_name(path) matches Some(name) && name.len() >= 3 && name.subrange(name.len() - 3, name.len() as int) == ".ts"@) // [C16.example.d_ts_and_ts]
+            ==> (grammar_for(path, m, extra) matches Some(p) && p.grammar() == "typescript"@),
+        // `go.mod`, `go.sum`, `go.work`: the whole name is the registered key (`mod` etc. are not)
+        (base_name(path) == Some("go.mod"@) || base_name(path) == Some("go.sum"@) || base_name(path) == Some("go.work"@)) // [C16.example.go_mod_sum_work]
+            ==> (grammar_for(path, m, extra) matches Some(p) && p.grammar() == "go"@),
+        // `Makefile` / `makefile` in any directory (`dir.with.dots/Makefile`: only the base name counts)
+        (base_name(path) == Some("Makefile"@) || base_name(path) == Some("makefile"@)) // [C16.example.makefile_any_directory]
+            ==> (grammar_for(path, m, extra) matches Some(p) && p.grammar() == "makefile"@),
+        // `x.rs.bak`: no candidate (`bak`, `rs.bak`, `x.rs.bak`) is registered: skipped
+        base_name(path) == Some("x.rs.bak"@) ==> grammar_for(path, m, extra) is None, // [C16.example.unknown_suffix_skipped]
+{
+    reveal_with_fuel(first_hit, 4);
+    reveal_strlit(".ts"); reveal_strlit("ts");
+    reveal_strlit("go.mod"); reveal_strlit("go.sum"); reveal_strlit("go.work");
+    reveal_strlit("mod"); reveal_strlit("sum"); reveal_strlit("work");
+    reveal_strlit("Makefile"); reveal_strlit("makefile");
+    reveal_strlit("x.rs.bak"); reveal_strlit("rs.bak"); reveal_strlit("bak");
+    if base_name(path) is Some {
+        let name = base_name(path).unwrap();
+        if name.len() >= 3 && name.subrange(name.len() - 3, name.len() as int) == ".ts"@ {
+            let k = name.len() - 3;
+            let suf = name.subrange(k, name.len() as int);
+            assert(suf[0] == '.' && suf[1] == 't' && suf[2] == 's');
+            assert(name[k] == suf[0] && name[k + 1] == suf[1] && name[k + 2] == suf[2]);
+            lemma_last_suffix_tried_first(name, k);
+            assert(name.subrange(k + 1, name.len() as int) =~= "ts"@);
+        }
+        if name == "go.mod"@ {
+            assert(name.len() == 6 && name[0] == 'g' && name[1] == 'o' && name[2] == '.' && name[3] == 'm' && name[4] == 'o' && name[5] == 'd');
+            assert(seq![2int].contains(2)) by { assert(seq![2int][0] == 2); }
+            lemma_positions_known(name, seq![2int]);
+            assert(name.subrange(3, 6) =~= "mod"@);
+            assert(candidates(name) =~= seq!["mod"@, name]);
+        }
+        if name == "go.sum"@ {
+            assert(name.len() == 6 && name[0] == 'g' && name[1] == 'o' && name[2] == '.' && name[3] == 's' && name[4] == 'u' && name[5] == 'm');
+            assert(seq![2int].contains(2)) by { assert(seq![2int][0] == 2); }
+            lemma_positions_known(name, seq![2int]);
+            assert(name.subrange(3, 6) =~= "sum"@);
+            assert(candidates(name) =~= seq!["sum"@, name]);
+        }
+        if name == "go.work"@ {
+            assert(name.len() == 7 && name[0] == 'g' && name[1] == 'o' && name[2] == '.' && name[3] == 'w' && name[4] == 'o' && name[5] == 'r' && name[6] == 'k');
+            assert(seq![2int].contains(2)) by { assert(seq![2int][0] == 2); }
+            lemma_positions_known(name, seq![2int]);
+            assert(name.subrange(3, 7) =~= "work"@);
+            assert(candidates(name) =~= seq!["work"@, name]);
+        }
+        if name == "Makefile"@ {
+            assert(name.len() == 8 && name[0] == 'M' && name[1] == 'a' && name[2] == 'k' && name[3] == 'e' && name[4] == 'f' && name[5] == 'i' && name[6] == 'l' && name[7] == 'e');
+            lemma_positions_known(name, Seq::<int>::empty());
+            assert(candidates(name) =~= seq![name]);
+        }
+        if name == "makefile"@ {
+            assert(name.len() == 8 && name[0] == 'm' && name[1] == 'a' && name[2] == 'k' && name[3] == 'e' && name[4] == 'f' && name[5] == 'i' && name[6] == 'l' && name[7] == 'e');
+            lemma_positions_known(name, Seq::<int>::empty());
+            assert(candidates(name) =~= seq![name]);
+        }
+        if name == "x.rs.bak"@ {
+            assert(name.len() == 8 && name[0] == 'x' && name[1] == '.' && name[2] == 'r' && name[3] == 's' && name[4] == '.' && name[5] == 'b' && name[6] == 'a' && name[7] == 'k');
+            let d = seq![1int, 4int];
+            assert(d[0] == 1 && d[1] == 4);
+            lemma_positions_known(name, d);
+            assert(name.subrange(5, 8) =~= "bak"@);
+            assert(name.subrange(2, 8) =~= "rs.bak"@);
+            assert(candidates(name) =~= seq!["bak"@, "rs.bak"@, name]);
+        }
+    }
+}
 
 } // verus!
 fn main() {}
